@@ -117,7 +117,7 @@ impl W18 {
 					req += 2;
 					active += 1;
 				}
-				SubSt::Unsubscribing => req += 1,
+				SubSt::Unsubscribing => req += 2,
 				SubSt::Done => {}
 			}
 		}
@@ -548,7 +548,7 @@ pub fn cycles(tier: Tier) -> Vec<C18Case> {
 pub fn check(ctx: &mut Ctx) {
 	ctx.rule = "histories of {call, subscribe answered accept(num/str id) / refuse / malformed id / duplicate subscription id, subscribe future dropped before the answer, unsubscribe, drop, server-side close, lag-close, batch, notification handler register / drop / lag} \
 		with the acknowledgements (incl. unsubscribe acks) delivered in a generated order, then everything outstanding is finished; plus 200 (quick) / 1000 repetitions of each single cycle. \
-		Oracle: after EVERY step at quiescence the four internal table sizes (hook) equal what is outstanding by design (pending call 1, pending/active subscription 2, unsubscribe awaiting its ack 1, pending batch 1, handler 1), and all are 0 at the end; \
+		Oracle: after EVERY step at quiescence the four internal table sizes (hook) equal what is outstanding by design (pending call 1, pending/active subscription 2, unsubscribe awaiting its ack 2, pending batch 1, handler 1), and all are 0 at the end; \
 		hook-free cross-check: a late response bearing any id used by finished work must make the client abandon the connection instead of being swallowed. Non-trivial = subscriptions ended by >= 2 different paths in one history; distinct by case value."
 		.into();
 	ctx.assumptions = vec!["table sizes are read through the verif-hooks accessor (weak reference); without the feature only the late-response probe runs".into()];
